@@ -134,6 +134,28 @@ def MemDB.drain (db : MemDB) (keys : List Bytes) : List KV := keys.map (fun k =>
 def MemDB.iter (db : MemDB) (s e : Bound) : List KV := db.drain (db.getSortedKeys s e false)
 def MemDB.riter (db : MemDB) (s e : Bound) : List KV := db.drain (db.getSortedKeys s e true)
 
+/-! ### the step-wise `memDBIterator`: the KEYS are collected at creation, `Value()` reads the map at the time of the call -/
+
+structure MemIt where
+  keys : List Bytes      -- from the cursor on
+deriving Repr
+
+def MemDB.openIt (db : MemDB) (s e : Bound) (rev : Bool) : MemIt := ⟨db.getSortedKeys s e rev⟩
+
+/-- `Valid`, `Key`, `Value`, `Next` against the map as it is NOW; `none` = invalid (end) -/
+def MemIt.step (it : MemIt) (now : MemDB) : Option (KV × MemIt) :=
+  match it.keys with
+  | [] => none
+  | k :: ks => some ((k, (now.get k).getD []), ⟨ks⟩)
+
+/-- stepping through a history of map states (one state per step) -/
+def MemIt.run (it : MemIt) : List MemDB → List KV
+  | [] => []
+  | now :: later =>
+    match it.step now with
+    | none => []
+    | some (kv, it') => kv :: it'.run later
+
 /-! ## the common `DB` interface as seen by `PrefixDB` and the driver -/
 
 structure DBI (σ : Type) where
@@ -176,6 +198,35 @@ def batchAfterWrite (aw : AfterWrite) (ops : List BOp) : List BOp :=
   match aw with
   | .keeps => ops
   | .empty => []
+
+/-! ## what the engines do with the EMPTY key (observed on the real adapters, tied by the `emptykey` stream)
+  bolt   : `Bucket.Put` refuses it ("key required"): `Set`/`SetSync` log and drop, `Put` returns the error, reads answer
+           "not found", `Delete`/`Del` are no-ops, a batch silently drops such an op;
+  badger : `Txn.Set` refuses it: `Set`/`SetSync`/`Put` swallow ErrEmptyKey and drop; `Get`/`Has` PANIC (ErrEmptyKey is not
+           ErrKeyNotFound), `Load`/`Exist` answer "not found" with the error, `Delete`/`DeleteSync` PANIC (PanicCrisis),
+           `Del` returns the error, a batch silently drops such an op;
+  memdb, goleveldb : the empty key is an ordinary key. -/
+inductive Engine where
+  | mem | ldb | bolt | bdg
+deriving Repr, DecidableEq
+
+/-- does a write (direct or through a batch) of key `k` reach the store? -/
+def Engine.stores (e : Engine) (k : Bytes) : Bool :=
+  match e with
+  | .bolt | .bdg => !k.isEmpty
+  | _ => true
+
+/-- `Get`/`Has` panic -/
+def Engine.panicsOnRead (e : Engine) (k : Bytes) : Bool := e == .bdg && k.isEmpty
+/-- `Delete`/`DeleteSync` panic -/
+def Engine.panicsOnDelete (e : Engine) (k : Bytes) : Bool := e == .bdg && k.isEmpty
+/-- `Put` returns an error (bolt), `Del` returns an error (badger) -/
+def Engine.putErr (e : Engine) (k : Bytes) : Bool := e == .bolt && k.isEmpty
+def Engine.delErr (e : Engine) (k : Bytes) : Bool := e == .bdg && k.isEmpty
+
+/-- the ops of a batch that an engine's `Write` really applies -/
+def Engine.batchOps (e : Engine) (ops : List BOp) : List BOp :=
+  ops.filter (fun op => match op with | .set k _ => e.stores k | .del k => e.stores k)
 
 def applyBOp {σ} (I : DBI σ) (db : σ) : BOp → σ
   | .set k v => I.set db k v
@@ -240,6 +291,17 @@ def pfxI {σ} (I : DBI σ) (p : Bytes) : DBI σ :=
     set := fun db k v => I.set db (p ++ k) v, del := fun db k => I.del db (p ++ k),
     iter := fun db s e => pfxIter I db p s e, riter := fun db s e => (pfxRIter I db p s e).getD [],
     reopen := I.reopen }
+
+/-- `prefixBatch.Set/Delete`: the op is recorded in the source batch under `append(cp(prefix), key...)`, a FRESH slice
+(in the model keys are values; the Go-level law this stands for: the key slice handed to the source batch is never
+written again by a later call - an `append(pb.prefix, key...)` without the copy would let later calls overwrite it
+when the prefix slice has spare capacity, which the harness provokes by building views on such slices) -/
+def prefixOp (p : Bytes) : BOp → BOp
+  | .set k v => .set (p ++ k) v
+  | .del k => .del (p ++ k)
+
+/-- a batch of a view after the calls `ops` (in call order) -/
+def prefixBatch (p : Bytes) (ops : List BOp) : List BOp := ops.map (prefixOp p)
 
 /-- specification of a prefixed view: the entries under the prefix, prefix stripped -/
 def restrict (p : Bytes) (m : Ref) : Ref := (m.filter (fun kv => hasPrefix p kv.1)).map (strip p)
